@@ -147,6 +147,9 @@ enum Ev {
     CmdCancel(Vec<Req>),
     CmdCancelAll,
     CmdCloseAll,
+    /// environment: the execution link of this exchange dies (its next use is a fatal engine error,
+    /// so the run ends with a fatal-error record that still carries a state-changing event)
+    BreakLink { exchange: usize },
     Shutdown,
 }
 
@@ -218,7 +221,7 @@ fn to_engine_event(ev: &Ev, idx: usize, ins: &IndexedInstruments) -> Option<Engi
         Ev::CmdCancelAll => EngineEvent::Command(Command::CancelOrders(InstrumentFilter::None)),
         Ev::CmdCloseAll => EngineEvent::Command(Command::ClosePositions(InstrumentFilter::None)),
         Ev::Shutdown => EngineEvent::shutdown(),
-        Ev::QueueAlgo(_) => return None,
+        Ev::QueueAlgo(_) | Ev::BreakLink { .. } => return None,
     })
 }
 
@@ -305,7 +308,11 @@ struct Outcome {
     market_items: u64,
 }
 
-fn apply_env(engine: &mut Eng, ev: &Ev) -> bool {
+fn apply_env(engine: &mut Eng, txs: &[RecTx], ev: &Ev) -> bool {
+    if let Ev::BreakLink { exchange } = ev {
+        txs[*exchange].set_mode(TxMode::Closed);
+        return true;
+    }
     if let Ev::QueueAlgo(batch) = ev {
         let cancels = batch.iter().filter(|r| !r.open).map(to_cancel).collect();
         let opens = batch.iter().filter(|r| r.open).map(to_open).collect();
@@ -357,7 +364,7 @@ fn run_stepwise(enabled: bool, events: &[Ev], snap_at: usize, fault_stage: bool)
                 out.cells.push("snapshot_taken_mid_history");
             }
         }
-        if apply_env(&mut engine, ev) {
+        if apply_env(&mut engine, &txs, ev) {
             continue;
         }
         let ee = to_engine_event(ev, idx, &ins).unwrap();
@@ -456,11 +463,11 @@ fn run_stepwise(enabled: bool, events: &[Ev], snap_at: usize, fault_stage: bool)
 /// Drivers (ii)/(iii): the engine runners with an audit channel; judged on the collected stream.
 fn run_runner(enabled: bool, events: &[Ev], asynchronous: bool) -> Result<Outcome, V> {
     let ins = instruments();
-    let (mut engine, _txs) = build(enabled);
+    let (mut engine, txs) = build(enabled);
     // the runners consume a plain feed: queued strategy batches are pre-loaded in order
     let mut feed: Vec<EngineEvent> = vec![];
     for (idx, ev) in events.iter().enumerate() {
-        if !apply_env(&mut engine, ev) {
+        if !apply_env(&mut engine, &txs, ev) {
             feed.push(to_engine_event(ev, idx, &ins).unwrap());
         }
     }
@@ -728,7 +735,14 @@ fn gen_events(rng: &mut Rng, max_len: usize, start_enabled: bool) -> Vec<Ev> {
                 Some((i, c)) => Ev::CmdCancel(vec![Req { open: false, instr: i, cid: c }]),
                 None => Ev::CmdCancelAll,
             },
-            92..=94 => Ev::CmdCancelAll,
+            92..=93 => Ev::CmdCancelAll,
+            94 => {
+                if rng.chance(1, 3) {
+                    Ev::BreakLink { exchange: rng.usize_below(2) }
+                } else {
+                    Ev::CmdCancelAll
+                }
+            }
             95..=97 => Ev::CmdCloseAll,
             _ => Ev::Market { instr: rng.usize_below(N_INSTR), t, price: rng.range(50, 150) },
         };
@@ -850,6 +864,7 @@ fn main() {
             "snapshot_taken_mid_history",
             "terminal:shutdown",
             "terminal:feed_ended",
+            "terminal:fatal_error",
             "fault:record_deleted",
             "fault:record_duplicated",
             "fault:records_swapped",
